@@ -95,7 +95,8 @@ def execute(make_world, chooser, trace=False):
     armed = threading.current_thread() is threading.main_thread()
     if armed:
         signal.signal(signal.SIGALRM, _alarm)
-        signal.setitimer(signal.ITIMER_REAL, STUCK_AFTER if not _stuck_seen else STUCK_AFTER_NEXT)
+        # (repeating: a second busy loop in the same execution is interrupted as well)
+        signal.setitimer(signal.ITIMER_REAL, STUCK_AFTER if not _stuck_seen else STUCK_AFTER_NEXT, STUCK_AFTER_NEXT)
     loop = VLoop()
     loop.enter()
     w = make_world()
